@@ -8,6 +8,7 @@ Decided (writer/reader agreement, E9 — all facts read from export_data.py / im
   IO-layout  per kind, the enumeration order written equals the order the reader rebuilds with
              (dense: transpose + C-order tofile = F, read by the F-reshaping tensor constructor;
              factor matrices row by row = C, read by a C reshape; matrix C / C)
+  IO-cnt     the entry count in the sparse header is the number of stored entries, like the loop that writes the entry lines
   IO-seq     per kind, the sequence of text lines (L) and numeric blocks (N) written equals the
              sequence read; every type tag written is dispatched by the importer
   IO-entry   a sparse entry line is written subscripts-then-value and read as line[:-1] / line[-1];
@@ -297,7 +298,7 @@ def check(prog: Program, res: Result, tier: str) -> None:
         "a double round-trips through 17 significant decimal digits",
         "the tensor constructor reshapes flat data in F order (checked structurally under IO-layout)",
     ]
-    res.floors = {"IO-fmt": 5, "IO-base": 4, "IO-layout": 3, "IO-seq": 4, "IO-entry": 3}
+    res.floors = {"IO-fmt": 5, "IO-base": 4, "IO-layout": 3, "IO-seq": 4, "IO-entry": 3, "IO-cnt": 1}
     EXM, IMM = "pyttb.export_data", "pyttb.import_data"
     exp = prog.func("export_data.export_data")
     imp = prog.func("import_data.import_data")
@@ -416,6 +417,50 @@ def check(prog: Program, res: Result, tier: str) -> None:
     else:
         res.bad("IO-base", "import_data.import_data", desc, prog.loc(imp, fw[1]),
                 "the sparse reader is called without the caller's index_base")
+
+    # ---- IO-cnt: the entry count announced in the sparse header is the number of entry lines written
+    ess = prog.func("export_data.export_sparse_size")
+
+    def stored_count(e: ast.AST, param: str) -> Optional[bool]:
+        """True: the number of stored entries of `param` (nnz, rows of subs / vals); False: a count of something else (non-zero VALUES);
+        None: not recognised."""
+        t = ast.unparse(e).replace(" ", "")
+        if t in (f"{param}.nnz", f"len({param}.subs)", f"len({param}.vals)", f"{param}.subs.shape[0]", f"{param}.vals.shape[0]", f"{param}.vals.size"):
+            return True
+        if isinstance(e, ast.Call) and (dotted(e.func) or "").split(".")[-1] in ("count_nonzero", "sum", "flatnonzero", "nonzero") \
+                and f"{param}.vals" in t:
+            return False
+        return None
+    pa = ess.params()[1] if len(ess.params()) > 1 else "A"
+    header = None
+    for n in ast.walk(ess.resolve(ess.node)):
+        if isinstance(n, (ast.Attribute, ast.Call, ast.Subscript)):
+            v = stored_count(n, pa)
+            if v is not None and ".shape)" not in ast.unparse(n) and "len(" + pa + ".shape" not in ast.unparse(n):
+                header = (v, n) if header is None or header[0] else header
+    pb = esa.params()[1] if len(esa.params()) > 1 else "A"
+    body = None
+    for n in ast.walk(esa.node):
+        if isinstance(n, ast.For) and any(isinstance(c, ast.Call) and isinstance(c.func, ast.Attribute) and c.func.attr == "tofile" for c in ast.walk(n)):
+            it = esa.resolve(n.iter)
+            if isinstance(it, ast.Call) and (dotted(it.func) or "") == "range" and len(it.args) == 1:
+                body = (stored_count(it.args[0], pb), it.args[0])
+            elif isinstance(it, ast.Call) and (dotted(it.func) or "") in ("zip", "enumerate") and it.args \
+                    and all(ast.unparse(a).replace(" ", "") in (f"{pb}.subs", f"{pb}.vals") for a in it.args):
+                body = (True, it)
+            elif ast.unparse(it).replace(" ", "") in (f"{pb}.subs", f"{pb}.vals"):
+                body = (True, it)
+    desc = "the entry count written in the sparse header is the number of entry lines written after it (every stored entry, explicit zeros included)"
+    if header is None or body is None or body[0] is None:
+        res.undecided("IO-cnt", "export_data.export_sparse_size", desc, prog.loc(ess),
+                      f"header count {ast.unparse(header[1]) if header else None}, writer loop over {ast.unparse(body[1]) if body else None}")
+    elif header[0] and body[0]:
+        res.ok("IO-cnt", "export_data.export_sparse_size", desc, prog.loc(ess), f"header {ast.unparse(header[1])}, writer {ast.unparse(body[1])}")
+    else:
+        which = header if not header[0] else body
+        res.bad("IO-cnt", "export_data.export_sparse_size", desc, prog.loc(ess if which is header else esa),
+                f"`{ast.unparse(which[1])[:60]}` counts non-zero VALUES, the other side counts stored entries: with an explicitly stored 0.0 the reader "
+                "takes fewer (or expects more) lines than were written and the tail of the file is lost")
 
     # ---- IO-seq + tags
     eb = _kind_branches_export(exp.node)
